@@ -98,3 +98,55 @@ def _mk(module, pr):
 
 for _m, _p in sorted(MODULE_PROPS.items()):
     _mk(_m, _p)
+
+
+@rule('SA-DEFAULT.attr')
+@props('C14', 'C02')
+def default_attr(ctx):
+    """`v = self.A; if v is None: v = <default>`: once the local copy carries the default, the attribute itself still
+    holds None for "not configured".  Every later use of the setting in that function goes through the local; a read
+    of `self.A` after the resolving `if` (other than asking whether it is None, or assigning it) sees None exactly in
+    the configurations that rely on the default - a question asked up front about `self.A` (may the parent take this
+    name?) is then asked about nothing, and the refusal it was meant to bring forward arrives after the first change."""
+    obs = []
+    n = 0
+    for fi in ctx.m.pkg_functions():
+        if fi.cls is None:
+            continue
+        copies = {}
+        for st in ctx.own_nodes(fi):
+            if isinstance(st, ast.Assign) and len(st.targets) == 1 and isinstance(st.targets[0], ast.Name) and isinstance(st.value, ast.Attribute) and \
+                    isinstance(st.value.value, ast.Name) and st.value.value.id == 'self':
+                copies.setdefault(st.targets[0].id, []).append(st)
+        for v, sts in sorted(copies.items()):
+            if len(sts) != 1:
+                continue
+            ifs = _resolving_ifs(fi, v)
+            if len(ifs) != 1:
+                continue
+            res = ifs[0]
+            attr = sts[0].value.attr
+            n += 1
+            g = ctx.cfg(fi)
+            dom = g.dominators()
+            rn = g.node_of(res)
+            par = ctx.parents(fi)
+            bad = []
+            for x in ctx.own_nodes(fi):
+                if not (isinstance(x, ast.Attribute) and x.attr == attr and isinstance(x.ctx, ast.Load) and isinstance(x.value, ast.Name) and x.value.id == 'self'):
+                    continue
+                pn = par.get(id(x))
+                if isinstance(pn, ast.Compare) and len(pn.ops) == 1 and isinstance(pn.ops[0], (ast.Is, ast.IsNot)) and \
+                        isinstance(pn.comparators[0], ast.Constant) and pn.comparators[0].value is None and pn.left is x:
+                    continue
+                sn = g.node_of(ctx.enclosing_stmt(fi, x))
+                if sn is None or rn is None or sn is rn:
+                    continue
+                if rn.id in dom.get(sn.id, ()):
+                    bad.append(x)
+            obs.append(Ob('SA-DEFAULT.attr', '%s|%s = self.%s' % (fi.qual, v, attr), not bad, ctx.loc(fi, bad[0] if bad else res),
+                          '' if not bad else 'line %d reads self.%s after `%s` (line %d) has given the local copy `%s` its default: the attribute is still None when the '
+                          'default applies, so this use and the uses of `%s` disagree exactly then' % (bad[0].lineno, attr, norm(res.test), res.lineno, v, v)))
+    # the idiom may legitimately disappear (`self.A or default`): no floor, the count is reported
+    obs.append(Ob('SA-DEFAULT.attr', 'defaulted local copies of attributes examined', True, '', '%d' % n))
+    return obs
